@@ -2711,6 +2711,28 @@ def check_C08(ctx):
             co.append(("fen\t" + b.hex(), b.decode("latin-1"), g, m))
     fen_decision_check(ctx, fam_strings, fam_go)
     fen_decision_check(ctx, LENIENT_REPRESENTATIVES + [v.encode() for v in valid[:200]])
+    # the en passant field against the position: every square of the third and sixth rank, either side to move,
+    # (a) with a single pawn of either colour directly in front of or behind the square (complete for that shape),
+    # (b) on positions of the pool - accepted exactly when the specification calls the result a legal position
+    epv = []
+    for side in "wb":
+        for fl in "abcdefgh":
+            for rk in (3, 6):
+                for pawn in "Pp":
+                    for prk in (rk - 1, rk + 1):
+                        b = [["." for _ in range(8)] for _ in range(8)]
+                        b[7][4], b[0][0 if fl != "a" else 7] = "k", "K"
+                        b[prk - 1][ord(fl) - 97] = pawn
+                        epv.append(f"{gens.board_to_fen(b)} {side} - {fl}{rk} 0 1")
+    for f in rng.sample(valid, min(len(valid), ctx.size(150, 3000))):
+        parts = f.split(" ")
+        for _ in range(4):
+            q = list(parts)
+            q[1] = rng.choice("wb")
+            q[3] = rng.choice("abcdefgh") + rng.choice("36")
+            epv.append(" ".join(q))
+    ctx.bump("ep_field_variants", len(epv))
+    fen_decision_check(ctx, [e.encode() for e in dict.fromkeys(epv)])
     # rejected FEN keeps the current position
     keep_ops = []
     # `position` trims white space and an optional `fen ` keyword before loading: a string the loader rejects only
@@ -2893,7 +2915,13 @@ def follow_game_check(ctx, pool):
     P = Q + the first one or two moves of that search's principal variation, reached through `position Q moves ...`
     in the same process, against the same probe in a fresh process"""
     items = []
-    for f, cnt in pool:
+    for j, (f, cnt) in enumerate(pool):
+        if j % 2:
+            # every second game is played at a move number near a multiple of 350 plies, where per-ply tables that
+            # are indexed modulo their size wrap around
+            parts = f.split()
+            parts[5] = str(ctx.rng.choice([150, 160, 170, 173, 174, 175, 176, 177, 348, 349, 350, 351, 525, 526, 9990]))
+            f = " ".join(parts)
         nmen = sum(1 for c in f.split()[0] if c.isalpha())
         d1 = ctx.rng.choice([2, 3, 4]) if nmen <= 16 else ctx.rng.choice([2, 3])
         items.append((f, d1, ctx.rng.choice([2, 3]) if nmen > 16 else ctx.rng.choice([2, 3, 4]), ctx.rng.choice([1, 1, 2]), ctx.rng.random() < 0.3))
@@ -3262,6 +3290,8 @@ def check_C17(ctx):
     scripts.append([("position startpos moves " + shuffle, []), ("go depth 2", []), ("isready", [])])
     scripts.append([("position startpos", []), ("go depth 2 " + "depth 2 " * 20000, []), ("isready", [])])
     scripts.append([("position fen " + "8/" * 40000, []), ("isready", [])])
+    wrap = " ".join(["g1f3 g8f6 f3g1 f6g8"] * 3200)
+    scripts.append([("position fen rnbqkbnr/pppppppp/8/8/8/8/PPPPPPPP/RNBQKBNR w KQkq - 0 9999 moves " + wrap, []), ("go depth 2", []), ("perft 2", []), ("tperft 2", []), ("eval", []), ("isready", [])])
     if not ctx.quick:
         scripts.append([("setoption name " + "y" * 3000000, []), ("isready", [])])
     # positions at the edge of the capacities that ARE representable: fourteen officers and a pawn about to promote
